@@ -267,8 +267,13 @@ def unit_split(sess, ctx):
             sr, sw, ch, bs = Int(tag + ".sr"), Int(tag + ".sw"), Int(tag + ".ch"), Int(tag + ".block_size")
             eng.assume(And(sr >= 1, sw >= 1, ch >= 1, bs >= 1))
             bd = Fl(eng.spec_div(bs, sr))
+            # an overlapping reader has a hop shorter than its block: frames (and so the window counts and the region
+            # starts) are still block_dur long
+            hs = Int(tag + ".hop_size")
+            eng.assume(And(hs >= 1, hs <= bs))
             st.heap[r.oid].update({"sr": sr, "sw": sw, "ch": ch, "block_dur": bd, "sampling_rate": sr,
-                                   "sample_width": sw, "channels": ch})
+                                   "sample_width": sw, "channels": ch, "block_size": bs, "hop_size": hs,
+                                   "hop_dur": Fl(eng.spec_div(hs, sr))})
             st.ghost.setdefault("isa", {})[r.oid] = {"AudioReader": True, "AudioRegion": False, "AudioSource": False}
             rdr_view.update({"r": r, "sr": sr, "sw": sw, "ch": ch, "bd": bd})
             return r
@@ -278,7 +283,8 @@ def unit_split(sess, ctx):
         if ikind == "reader":
             inp = mk_reader("rd")
         elif ikind == "region":
-            region_view = RG.RV("in")
+            # a region that was itself cut out of a longer stream carries a start; the result must not depend on it
+            region_view = RG.RV("in", "none" if eng.choose(2, None, "region input: no start / has a start") == 0 else "float")
             eng.assume(region_view.wf(eng))
             inp = RG.region_obj(eng, region_view)
         else:
@@ -410,6 +416,10 @@ def unit_split(sess, ctx):
         if not ok:
             return None
         _, ta, tkw, tref = tk[0]
+        # a tokenizer carries the state of the run in progress: two split() results alive together must not share one
+        shared = eng.st.ghost.get("maybe_shared", {})
+        eng.prove("C20:split:the-tokenizer-is-this-call's-own(not-handed-out-by-a-memoising-helper)", tref.oid not in shared,
+                  props=("C20", "C08", "C05", "C09"))
         uv = resolve(vals, "validator", "val", None)
         vcalls = [x for x in log if x[0] == "AudioEnergyValidator"]
         val_arg = eng.force(ta[0]) if ta else None
@@ -475,15 +485,15 @@ def unit_split(sess, ctx):
             rv = eng.eval(res.elt, f2)
             mk = [x for x in log[n0:] if x[0] == "make_region"]
             okm = len(mk) == 1 and len(log) == n0 + 1 and len(mk[0][1]) == 6 and not mk[0][2]
-            eng.prove("C05:split:one-region-per-token-nothing-else-done", okm, props=("C05", "C08"))
+            eng.prove("C05:split:one-region-per-token-nothing-else-done", okm, props=("C05", "C08", "C09"))
             if okm:
                 x = mk[0][1]
-                eng.prove("C05:split:region-built-from-the-token-frames-and-start", x[0] is d and x[1] is a, props=("C05",))
+                eng.prove("C05:split:region-built-from-the-token-frames-and-start", x[0] is d and x[1] is a, props=("C05", "C09"))
                 eng.prove("C05:split:region-start-uses-the-reader's-real-block-duration",
                           (x[2].t == rdr_view["bd"].t) if isinstance(x[2], Fl) else False, props=("C05", "C09"))
                 eng.prove("C05:split:region-format-is-the-reader's",
                           And(I(x[3]) == rdr_view["sr"], I(x[4]) == rdr_view["sw"], I(x[5]) == rdr_view["ch"])
-                          if all(is_int(y) for y in x[3:6]) else False, props=("C05",))
+                          if all(is_int(y) for y in x[3:6]) else False, props=("C05", "C09"))
         return None
     sess.run_unit(u, eng, run_, max_paths=100000)
     return u
